@@ -178,7 +178,8 @@ Definition wh_core (m n : nat) (KJ muJ : @M QcF) (jxx : Qc) (L mq Sq : @M QcF)
    1 :: q(u) mean (m) ++ q(u) cov (m*m) ++ q(f) mean (n) ++ q(f) cov (n*n) ++ KL expr
      ++ [whitened only: root residual];
    4 = the whitened parameters through the unwhitened closed form (cross-check of the
-   theorem on a few small cases) *)
+   theorem on a few small cases);
+   5 = grid interpolation at grid nodes without the KL term (constant 0) *)
 Definition run_c14 (c : nat * (nat * nat * nat) * list (list Qc) * list Qc * (Qc * Qc * Qc)
                         * nat * list Qc * list (list Qc) * list (list Qc)
                         * list Qc * list nat) : list Z :=
@@ -237,6 +238,14 @@ Definition run_c14 (c : nat * (nat * nat * nat) * list (list Qc) * list Qc * (Qc
               ++ ser_expr (kl_unwh_expr m has_cov Kp Kpinv Sq mq mz)
       | None => [0%Z]
       end
+    | 5%nat =>
+      (* grid interpolation at grid nodes, predictive only (d >= 2: m = g^d is beyond the
+         Laplace-expansion determinant; the KL code path does not depend on d) *)
+      let ix := fun i => nth i idx O in
+      1%Z :: ser_mat m 1 mq ++ ser_mat m m Sq
+          ++ ser_mat n 1 (gather ix (fun x => x) mq)
+          ++ ser_mat n n (gather ix ix Sq)
+          ++ ser_expr (EConst 0%Qc)
     | _ =>
       let L := of_list l in
       match wh_core m (n + g) KJ muJ jxx L mq Sq with
